@@ -1,7 +1,7 @@
 (* Lemmas about Model/Factorized.v (part 11: the einsum-backend TT-matrix route equals the core-backend route). *)
 From Coq Require Import List Arith Lia Bool Ring.
 From TLV Require Import Base.Shape Base.PyList Base.Tensor Base.BigSum Base.Ops Model.Base Model.Factorized
-  Proofs.BaseProofs Proofs.FactorizedProofs Proofs.FactorizedProofs5 Proofs.FactorizedProofs9.
+  Proofs.BaseProofs Proofs.FactorizedProofs Proofs.FactorizedProofs5 Proofs.FactorizedProofs8 Proofs.FactorizedProofs9.
 Import ListNotations.
 
 Section P.
@@ -52,13 +52,13 @@ Qed.
 
 (* both tenalg backends reconstruct the same tensor from every well-formed TT-matrix *)
 Theorem ttm_einsum_eq_core cs ns ms : cs <> [] -> ttm_cores 1 cs ns ms 1 ->
-  ttm_to_tensor_einsum Op cs = ttm_to_tensor Op cs.
+  ttm_to_tensor_einsum_raw Op cs = ttm_to_tensor Op cs.
 Proof.
   intros Hne Hc. destruct (ttm_to_tensor_spec F Op Rth cs ns ms Hne Hc) as (t & Ht & Hst & Hgt). rewrite Ht.
   destruct (all_shape4_ttm F _ _ _ _ _ Hc) as (ds & Eds & Efs).
   destruct (ein_chain_spec _ _ _ _ _ Hc ds Eds) as [Hok Hch].
   destruct (ttm_cores_length F _ _ _ _ _ Hc) as [Hln Hlm].
-  unfold ttm_to_tensor_einsum. destruct cs as [|fa rest]; [congruence|]. rewrite Eds. cbn [rbind]. rewrite Hok, Efs. f_equal.
+  unfold ttm_to_tensor_einsum_raw. destruct cs as [|fa rest]; [congruence|]. rewrite Eds. cbn [rbind]. rewrite Hok, Efs. f_equal.
   assert (Hr0 : d4a (hd (0, 0, 0, 0) ds) = 1).
   { inversion Hc as [|? ? ? ? ? ? ? ? ? Hfa ? ?]; subst. cbn [all_shape4] in Eds. unfold shape4 in Eds. rewrite Hfa in Eds. cbn [rbind] in Eds.
     destruct (all_shape4 rest); cbn [rbind] in Eds; [|discriminate]. injection Eds as <-. reflexivity. }
@@ -84,6 +84,25 @@ Proof.
   rewrite get_tabulate by exact Hio. rewrite (fsumn_1 F Op Rth). rewrite Hch by (auto; lia). apply (fsumn_1 F Op Rth).
 Qed.
 
+(* the einsum route validates first (repo 8b25fc6): on a well-formed TT-matrix the check passes and the route is the raw einsum *)
+Lemma ttm_cores_chain_shapes4 : forall r cs ns ms rl, ttm_cores r cs ns ms rl -> exists rs, chain_shapes4 F r cs ns ms rs rl.
+Proof.
+  induction 1 as [r|r n m r' G cs ns ms rl HG Hr Hc [rs IH]].
+  - exists []. apply csh4_nil.
+  - exists (r :: rs). apply csh4_cons with (r' := r'); assumption.
+Qed.
+Lemma ttm_cores_validated cs ns ms : cs <> [] -> ttm_cores 1 cs ns ms 1 -> exists rk, validate_ttm cs = Ok (ns ++ ms, rk).
+Proof.
+  intros Hne Hc. destruct (ttm_cores_chain_shapes4 _ _ _ _ _ Hc) as [rs Hs]. exists (rs ++ [1]).
+  apply validate_ttm_iff. split; [exact Hne|]. exists ns, ms, rs. auto.
+Qed.
+Theorem ttm_einsum_eq_core_v cs ns ms : cs <> [] -> ttm_cores 1 cs ns ms 1 ->
+  ttm_to_tensor_einsum Op cs = ttm_to_tensor Op cs.
+Proof.
+  intros Hne Hc. destruct (ttm_cores_validated cs ns ms Hne Hc) as [rk Hv].
+  unfold ttm_to_tensor_einsum. rewrite Hv. cbn [rbind]. exact (ttm_einsum_eq_core cs ns ms Hne Hc).
+Qed.
+
 (* hence every derived view agrees as well *)
 Corollary ttm_einsum_views_eq cs ns ms : cs <> [] -> ttm_cores 1 cs ns ms 1 ->
   ttm_to_matrix_einsum Op cs = ttm_to_matrix Op cs /\
@@ -91,7 +110,7 @@ Corollary ttm_einsum_views_eq cs ns ms : cs <> [] -> ttm_cores 1 cs ns ms 1 ->
   ttm_to_vec_einsum Op cs = ttm_to_vec Op cs.
 Proof.
   intros Hne Hc. unfold ttm_to_matrix_einsum, ttm_to_matrix, ttm_to_unfolded_einsum, ttm_to_unfolded, ttm_to_vec_einsum, ttm_to_vec.
-  rewrite (ttm_einsum_eq_core cs ns ms Hne Hc). repeat split; reflexivity.
+  rewrite (ttm_einsum_eq_core_v cs ns ms Hne Hc). repeat split; reflexivity.
 Qed.
 
 End P.
